@@ -2,9 +2,27 @@ import BpModel.All
 import BpProofs.Presence
 import BpProofs.Ops
 import BpProofs.Props.C07
+import BpProofs.CopyBytes
+import BpProofs.OkSound
 /-
   C14 — observers are pure; copy, deepcopy and pickle are faithful and independent.
   (Model after the D13 repair: copies keep `_serialized_on_wire` and `_unknown_fields`.)
+
+  What is proved here, sentence by sentence:
+    * observers are pure: `materialize_invisible`, `observer_pure_bytes`, `observer_pure_len`,
+      `observer_pure_presence`;
+    * copies keep class / `serialized_on_wire` / unknown fields / the oneof invariant, for ANY
+      instance satisfying the invariant: `copies_keep_presence`;
+    * copies are BYTE-FAITHFUL and VALUE-FAITHFUL, for every well-typed reachable message
+      (`MsgOk`, the domain of C01, decided by `msgOkB`): `copy_bytes_faithful`,
+      `copy_is_original` (the copy is the original value, at every nesting level: same slots,
+      same re-derived oneof selection), `copy_stays_welltyped`, `copy_steps`
+      (lemmas in BpProofs/CopyBytes.lean; the key step is `initCur_eq_cur`: under the oneof
+      invariant `__post_init__` re-derives exactly the stored selection);
+      `copy_needs_selected_set`: the one premise of `MsgOk` this rests on that is not a typing
+      condition (a selected member is not PLACEHOLDER) cannot be dropped;
+    * pickle = parse ∘ bytes: `pickle_is_wire_roundtrip` (faithfulness is then C01).
+  Not expressible in a pure functional model: independence (aliasing) of copies.
 -/
 namespace Bp.C14
 open Bp Gen
@@ -118,4 +136,79 @@ def S4 : Schema := [{ fields := [{ name := "s", num := 1, ty := .string }, { nam
                                   { name := "i", num := 3, ty := .int32 }] }]
 example : (stepOp S4 (.msg 0 [.ph, .ph, .int 7] true [9, 9] []) .readAll).bind (dumpVal S4) = .ok [0x18, 0x07, 9, 9] := by decide
 
+/-! ### copies are byte-faithful (lemmas: BpProofs/CopyBytes.lean) -/
+
+/-- **"`copy.copy(m)` and `copy.deepcopy(m)` encode to the same bytes as `m`"** (C14,
+    `copy_faithful` / `deepcopy_faithful`, the `dump … = dump s` half): for EVERY well-typed
+    reachable message `m` — nested messages, lists, maps, oneofs, unknown fields included — and
+    also when `bytes(m)` raises (both sides are then the same error) -/
+theorem copy_bytes_faithful (S : Schema) (m : Val) (h : MsgOk S m) :
+    dumpVal S (deepCopy S m) = dumpVal S m ∧ dumpVal S (shallowCopy S m) = dumpVal S m :=
+  ⟨deepCopy_bytes S m h, shallowCopy_bytes S m h⟩
+
+/-- **"… and are equal to `m`"** (C14, the `… ≈ s` half, in its strongest form): in the model,
+    where values have no identity, both copies ARE the original — the constructor gets every raw
+    slot back as it was (PLACEHOLDER is replaced by `None` only for optional fields, which under
+    `MsgOk` never hold PLACEHOLDER), `__post_init__` re-derives the very same oneof selection,
+    and `_serialized_on_wire` / `_unknown_fields` are carried over.  Hence equal under `==`,
+    same presence (`which_one_of`, `is_set`, `serialized_on_wire`), same `to_dict`, … -/
+theorem copy_is_original (S : Schema) (m : Val) (h : MsgOk S m) :
+    deepCopy S m = m ∧ shallowCopy S m = m :=
+  ⟨deepCopy_id S m h, shallowCopy_id S m h⟩
+
+/-- **"a copy is again a well-typed reachable message"** (so every theorem with the hypothesis
+    `MsgOk` — the binary round trip C01 in particular, and this one — applies to the copy, to
+    copies of copies, …) -/
+theorem copy_stays_welltyped (S : Schema) (m : Val) (h : MsgOk S m) :
+    MsgOk S (deepCopy S m) ∧ MsgOk S (shallowCopy S m) :=
+  ⟨deepCopy_ok S m h, shallowCopy_ok S m h⟩
+
+/-- the same as steps of the instance state machine the harness replays -/
+theorem copy_steps (S : Schema) (m : Val) (h : MsgOk S m) :
+    stepOp S m .deepcopy = .ok m ∧ stepOp S m .copy = .ok m := by
+  cases h with
+  | mk c d sl ow unk cur hd h1 h2 h3 h4 h5 h6 h7 hsl hunk =>
+    have hm : MsgOk S (.msg c sl ow unk cur) := MsgOk.mk c d sl ow unk cur hd h1 h2 h3 h4 h5 h6 h7 hsl hunk
+    constructor
+    · show Except.ok (deepCopy S (.msg c sl ow unk cur)) = _
+      rw [deepCopy_id S _ hm]
+    · show Except.ok (shallowCopy S (.msg c sl ow unk cur)) = _
+      rw [shallowCopy_id S _ hm]
+
+/-! non-vacuity: the theorems instantiated on the nested example value of BpProofs/OkSound.lean
+    (sub-message with a oneof selection and unknown fields, repeated messages, maps with message /
+    Timestamp / Duration values, wrapper, optional Duration), and the same facts observed by kernel
+    evaluation of the model -/
+example : dumpVal OkEx.SEx (deepCopy OkEx.SEx OkEx.mEx) = .ok OkEx.bsEx
+    ∧ dumpVal OkEx.SEx (shallowCopy OkEx.SEx OkEx.mEx) = .ok OkEx.bsEx := by
+  have := copy_bytes_faithful OkEx.SEx OkEx.mEx OkEx.mEx_ok
+  rw [OkEx.mEx_dump] at this
+  exact this
+example : MsgOk OkEx.SEx (deepCopy OkEx.SEx OkEx.mEx) := (copy_stays_welltyped _ _ OkEx.mEx_ok).1
+set_option maxRecDepth 8000 in
+example : dumpVal OkEx.SEx (deepCopy OkEx.SEx OkEx.mEx) = .ok OkEx.bsEx := by decide +kernel
+set_option maxRecDepth 8000 in
+example : dumpVal OkEx.SEx (shallowCopy OkEx.SEx OkEx.mEx) = .ok OkEx.bsEx := by decide +kernel
+example : msgOkB OkEx.SEx (deepCopy OkEx.SEx OkEx.mEx) = true := by decide +kernel
+/-- the oneof selection of the nested `Node` (member `sub`, index 3) survives the copy -/
+example : (match deepCopy OkEx.SEx OkEx.mid with | .msg _ _ _ _ cur => cur | _ => []) = [some 3] := by decide +kernel
+
+/-- **sharpness**: of the premises of `MsgOk`, "a selected oneof member is not PLACEHOLDER" is the
+    one the re-derivation of the selection needs beyond the oneof invariant of C07.  Without it the
+    statement is false: `Node` with member `a` selected but its slot holding PLACEHOLDER (only
+    reachable by assigning the `PLACEHOLDER` sentinel itself) encodes the selected default
+    (`18 00`), its copy has lost the selection and encodes nothing.  `msgOkB` rejects the value. -/
+theorem copy_needs_selected_set :
+    let m : Val := .msg 0 [.ph, .none, .ph, .ph, .ph, .ph] false [] [some 2]
+    msgOkB OkEx.SEx m = false
+    ∧ dumpVal OkEx.SEx m = .ok [0x18, 0x00]
+    ∧ dumpVal OkEx.SEx (deepCopy OkEx.SEx m) = .ok []
+    ∧ dumpVal OkEx.SEx (shallowCopy OkEx.SEx m) = .ok [] := by decide +kernel
+
 end Bp.C14
+
+#print axioms Bp.C14.copy_bytes_faithful
+#print axioms Bp.C14.copy_is_original
+#print axioms Bp.C14.copy_stays_welltyped
+#print axioms Bp.C14.copy_steps
+#print axioms Bp.C14.copy_needs_selected_set
